@@ -456,15 +456,27 @@ def check_malformed(ctx):
 
 
 # ---------------------------------------------------------------------------------- run
-def _corpus():
+def _corpus(kind="simplex"):
     d = VERIF / "corpus" / "C03"
     out = []
     if d.exists():
         for f in sorted(d.glob("*.json")):
             o = json.loads(f.read_text())
-            if o.get("kind", "simplex") == "simplex":
+            if o.get("kind", "simplex") != kind:
+                continue
+            if kind == "simplex":
                 out.append({"c": o["c"], "A": o["A"], "b": o["b"], "minimize": o.get("minimize", True), "max_iter": o.get("max_iter")})
+            else:
+                out.append(({"c": o["c"], "A": o["A"], "b": o["b"], "minimize": o.get("minimize", True)}, "corpus"))
     return out
+
+
+KNOWN_IPM_OVERFLOW = "C03-ipm-overflow"
+
+
+def _in_overflow_class(out, orc):
+    """class of the known finding: OverflowError out of solve_lp_interior on an infeasible / unbounded LP"""
+    return "fail" in out and out["fail"][0] == "exc" and out["fail"][1] == "OverflowError" and orc[0] in ("INFEASIBLE", "UNBOUNDED")
 
 
 def run(ctx: Ctx):
@@ -479,6 +491,11 @@ def run(ctx: Ctx):
         "inputs (cases where they differ are counted in histogram 'eps0_differs' and excluded from the claim)",
         "MAX_ITER answers are exempt from the verdict oracle (allowed by the property); Bland termination is not proved",
         "interior point: Newton/Cholesky step not modelled; only the convergence gate is (Ipm.gate), evaluated on the captured final iterate",
+        "interior point: the solver's max(eps, .) clamp leaves residuals ~ sqrt(k)*eps >= eps, so it almost never reaches its OPTIMAL gate "
+        "(only on ~1x1 / 1x2 LPs; everything else runs all 100 iterations and answers FEASIBLE or MAX_ITER) - see histogram ipm_status; "
+        "the OPTIMAL clause of the property is therefore exercised on few cases per run (generator family 'tiny')",
+        "general theorem C03_optimal_sound is proved for LPs that need no phase 1 (b >= 0); for phase-1 runs, INFEASIBLE and UNBOUNDED the "
+        "claim rests on the per-run certificates (cert_* lemmas + C03_cert_* soundness theorems)",
     ]
     big = ctx.tier == "thorough"
     n_rand = ctx.budget(420, 9000)
@@ -523,7 +540,8 @@ def run(ctx: Ctx):
     # ---- interior point
     check_malformed(ctx)
     n_ipm = ctx.budget(160, 2000)
-    items = [gen_ipm(ctx.rng) for _ in range(n_ipm)]
+    items = _corpus("ipm") + [gen_ipm(ctx.rng) for _ in range(n_ipm)]
+    overflow_open = any(f.get("id") == KNOWN_IPM_OVERFLOW for f in ctx.open_findings())
     ipm_results = pmap(_work_ipm, items)
     gate_cases, gate_meta = [], []
     for (case, kind), (out, orc, bad) in zip(items, ipm_results):
@@ -531,6 +549,9 @@ def run(ctx: Ctx):
         ctx.count("ipm_kind", kind)
         ctx.count("ipm_status", out.get("status", "FAIL") + "/" + orc[0])
         if bad:
+            if overflow_open and _in_overflow_class(out, orc):
+                ctx.known_hit(KNOWN_IPM_OVERFLOW, f"solve_lp_interior raises OverflowError on {orc[0]} input, e.g. c={case['c']} A={case['A']} b={case['b']} minimize={case['minimize']}")
+                continue
             ctx.violation(f"solve_lp_interior: {bad}", {"kind": "ipm", **case, "impl": {k: v for k, v in out.items() if k != "xyz"},
                                                         "exact_verdict": [str(v) for v in orc]})
             continue
